@@ -291,7 +291,7 @@ func RunAppPre(pre func(a *app.App), ops ...app.SettingOption) (out Outcome) {
 			}
 			done <- r
 		}()
-		r.err = a.Run(ops...)
+		r.err = a.Run(declinerOps(ops)...)
 	}()
 	select {
 	case r := <-done:
